@@ -48,8 +48,9 @@ type WorldCfg struct {
 	ExtFiles     []string // regular files under /opt/extensions (launched as external extensions)
 	ExtDirs      []string // directories under /opt/extensions (must be ignored)
 	FunctionName string   // AWS_LAMBDA_FUNCTION_NAME ("" = default test_function)
-	Handler      string
-	BootFault    string // "", "cmd", "cwd"
+	Handler      string   // handler override given on the command line (SandboxBuilder.SetHandler)
+	HandlerEnv   string   // AWS_LAMBDA_FUNCTION_HANDLER of the emulator's environment
+	BootFault    string   // "", "cmd", "cwd"
 	AccountID    string
 }
 
@@ -166,6 +167,11 @@ func (r *Run) NewWorld(cfg WorldCfg, uuidSeed int64) *World {
 		ResetFrontEnd()
 	}
 	os.Setenv("AWS_LAMBDA_FUNCTION_TIMEOUT", fmt.Sprintf("%d", cfg.TimeoutSec))
+	if cfg.HandlerEnv != "" {
+		os.Setenv("AWS_LAMBDA_FUNCTION_HANDLER", cfg.HandlerEnv)
+	} else {
+		os.Unsetenv("AWS_LAMBDA_FUNCTION_HANDLER")
+	}
 	if cfg.FunctionName != "" {
 		os.Setenv("AWS_LAMBDA_FUNCTION_NAME", cfg.FunctionName)
 	} else {
